@@ -11,7 +11,7 @@
    fails on the pinned one).  All theorems are for tables of ANY size. *)
 From Coq Require Import ZArith List Bool.
 From VV Require Import Csv.CsvDefs Csv.CsvProofs Csv.IngestProofs Csv.TableProofs Csv.TextProofs
-  Csv.SniffProofs Csv.TopProofs Csv.XrffProofs Csv.EndToEndCsv Csv.EndToEndXrff Csv.HeaderProofs Csv.GenTie
+  Csv.SniffProofs Csv.TopProofs Csv.XrffProofs Csv.EndToEndCsv Csv.EndToEndXrff Csv.HeaderProofs Csv.GenTie Csv.SniffedRead
   Gen.CsvConsts.
 Import ListNotations.
 Local Open Scope Z_scope.
@@ -427,6 +427,71 @@ Theorem C09_has_header_agrees_without_header_partial :
 Proof. exact has_header_agrees_without_header. Qed.
 Print Assumptions C09_has_header_agrees_without_header_partial.
 
+(* ------------------------------------------------------------------ sniffed read = the table *)
+(* "Explicit and sniffed settings agree on unambiguous tables", END TO END: for every typed
+   rectangular table rendered with a usual delimiter whose scanned lines have a constant
+   positive count of that delimiter and no other candidate with a constant positive count
+   (C09_guess_delimiter_unambiguous), whose first row needs no quoting and whose columns are
+   in the agreement classes of C09_has_header_agrees_* -- read_csv with the DEFAULT
+   parameters (delimiter and header both sniffed) returns Ok with the SAME frame as the
+   explicit read, which is the specification: one example per data row, in order.
+   ([explicit_dl d hdr] has trim_ws = false, so [parsed (explicit_dl d hdr) rows = rows] and
+   [map (field_out (explicit_dl d hdr)) r = r]: SniffedRead.parsed_explicit_dl / field_out_explicit_dl.
+   Non-vacuity: SniffedSanity.sniffed_header_by_theorem on "id;code\n1;ab\n2;cd\n3;ef\n".) *)
+Theorem C09_sniffed_read_is_the_table_header :
+  forall is_number stod stoi n, (1 <= n)%nat -> forall kinds d oi h r1 rest,
+  usual_delimiter d ->
+  Forall (renderable d) (h :: r1 :: rest) ->
+  length (arrange oi (map (field_out (explicit_dl d true)) h)) = n ->
+  row_ok is_number stod n kinds true (arrange oi (map (field_out (explicit_dl d true)) r1)) ->
+  Forall (fun r => row_ok is_number stod n kinds false (arrange oi r)) (parsed (explicit_dl d true) rest) ->
+  (forall k, oi = Some k -> Forall (fun r => (k < length r)%nat) (h :: r1 :: rest)) ->
+  two_classes kinds (explicit_dl d true) oi (r1 :: rest) ->
+  (exists k, (1 <= k)%nat /\ forall l, In l (firstn 20 (map (render_line d) (h :: r1 :: rest))) -> count_char d l = k) ->
+  (forall c, In c candidates_sorted -> c <> d ->
+     ~ exists k', (1 <= k')%nat /\ forall l, In l (firstn 20 (map (render_line d) (h :: r1 :: rest))) -> count_char c l = k') ->
+  unquoted d h ->
+  columns_all (fun h cells => votes_plus is_number h cells \/ cls_variable_text is_number h cells)
+              h (looked (length h) 20 (r1 :: rest)) ->
+  columns_some (votes_plus is_number) h (looked (length h) 20 (r1 :: rest)) ->
+  exists df,
+    read_csv is_number stod stoi fixed_v (render_table d (h :: r1 :: rest)) (sniffed_params oi) = Ok df
+    /\ read_csv is_number stod stoi fixed_v (render_table d (h :: r1 :: rest)) (explicit_params d true oi) = Ok df
+    /\ dataset df = fst (spec_rows stod n kinds [] (map (arrange oi) (parsed (explicit_dl d true) (r1 :: rest))))
+    /\ classes df = snd (spec_rows stod n kinds [] (map (arrange oi) (parsed (explicit_dl d true) (r1 :: rest))))
+    /\ length (dataset df) = length (r1 :: rest)
+    /\ length (columns df) = n
+    /\ (forall j c, nth_error (columns df) j = Some c ->
+          c_domain c = dom_of j (kinds j) /\
+          c_name c = trim (nth j (arrange oi (map (field_out (explicit_dl d true)) h)) [])).
+Proof. exact read_csv_sniffed_end_to_end_header_lemma. Qed.
+Print Assumptions C09_sniffed_read_is_the_table_header.
+
+Theorem C09_sniffed_read_is_the_table :
+  forall is_number stod stoi n, (1 <= n)%nat -> forall kinds d oi r1 rest,
+  usual_delimiter d ->
+  Forall (renderable d) (r1 :: rest) ->
+  row_ok is_number stod n kinds true (arrange oi (map (field_out (explicit_dl d false)) r1)) ->
+  Forall (fun r => row_ok is_number stod n kinds false (arrange oi r)) (parsed (explicit_dl d false) rest) ->
+  (forall k, oi = Some k -> Forall (fun r => (k < length r)%nat) (r1 :: rest)) ->
+  two_classes kinds (explicit_dl d false) oi (r1 :: rest) ->
+  (exists k, (1 <= k)%nat /\ forall l, In l (firstn 20 (map (render_line d) (r1 :: rest))) -> count_char d l = k) ->
+  (forall c, In c candidates_sorted -> c <> d ->
+     ~ exists k', (1 <= k')%nat /\ forall l, In l (firstn 20 (map (render_line d) (r1 :: rest))) -> count_char c l = k') ->
+  unquoted d r1 ->
+  columns_all (fun h cells => votes_minus is_number h cells \/ cls_variable_text is_number h cells)
+              r1 (looked (length r1) 20 rest) ->
+  exists df,
+    read_csv is_number stod stoi fixed_v (render_table d (r1 :: rest)) (sniffed_params oi) = Ok df
+    /\ read_csv is_number stod stoi fixed_v (render_table d (r1 :: rest)) (explicit_params d false oi) = Ok df
+    /\ dataset df = fst (spec_rows stod n kinds [] (map (arrange oi) (parsed (explicit_dl d false) (r1 :: rest))))
+    /\ classes df = snd (spec_rows stod n kinds [] (map (arrange oi) (parsed (explicit_dl d false) (r1 :: rest))))
+    /\ length (dataset df) = length (r1 :: rest)
+    /\ length (columns df) = n
+    /\ (forall j c, nth_error (columns df) j = Some c -> c_domain c = dom_of j (kinds j) /\ c_name c = []).
+Proof. exact read_csv_sniffed_end_to_end_lemma. Qed.
+Print Assumptions C09_sniffed_read_is_the_table.
+
 (* ------------------------------------------------------------------ tie: regenerated constants *)
 (* coq/Gen/CsvConsts.v is regenerated from utility/pocket_csv.h and dataframe.cc on every
    run; the model's literals are those of the source (this stops compiling when the
@@ -476,3 +541,5 @@ Example C09_xrff_end_to_end_nonvacuous := EndToEndXrff.Sanity.xrff_sanity.
 (* mixed tables with and without header through the agreement theorems *)
 Example C09_has_header_with_nonvacuous := HeaderProofs.ex_mixed_with_header_by_theorem.
 Example C09_has_header_without_nonvacuous := HeaderProofs.ex_mixed_without_header_by_theorem.
+Example C09_sniffed_read_nonvacuous :=
+  (SniffedSanity.sniffed_header_by_theorem, SniffedSanity.sniffed_no_header_by_theorem).
